@@ -1,6 +1,6 @@
 (* C12 — typed retrieval: the modelled stream extraction equals the number-text spec. *)
 From Coq Require Import List Ascii ZArith NArith Bool Lia.
-From DuneV Require Import C12_Model C12_Spec.
+From DuneV Require Import Params_gen C12_Model C12_Spec.
 Import ListNotations.
 Local Open Scope char_scope.
 
@@ -337,6 +337,10 @@ Proof. induction l as [|x l IH]; intros H; cbn; [reflexivity|]. rewrite H, IH by
 Lemma c12_bool_exact : forall s, c12_parse_bool s = c12_spec_bool s.
 Proof.
   intros s. unfold c12_parse_bool, c12_spec_bool.
+  (* the words re-read from the source are the spec's words (if the source changes them this step fails) *)
+  change (c12_words c12_param_true_words) with [["y"; "e"; "s"]; ["t"; "r"; "u"; "e"]]%char.
+  change (c12_words c12_param_false_words) with [["n"; "o"]; ["f"; "a"; "l"; "s"; "e"]]%char.
+  cbn [existsb]. rewrite !orb_false_r.
   change (c12_ity_extract C12Int) with (c12_extract_int true (- 2 ^ 31) (2 ^ 31 - 1)).
   rewrite c12_int_exact. reflexivity.
 Qed.
@@ -365,3 +369,145 @@ Proof. intros. apply c12_split_aux_tokens. Qed.
 Lemma c12_vector_exact_tokens : forall lo hi s,
   c12_parse_vector (c12_extract_int true lo hi) s = c12_all_some (c12_spec_int lo hi) (c12_spec_tokens_ws s).
 Proof. intros lo hi s. rewrite <- c12_split_tokens. exact (c12_vector_exact lo hi s). Qed.
+
+(* ------------------------------------------------------------------ the probe as found, exactly *)
+
+Lemma c12_range_asfound_exact : forall A (ex : c12_str -> option A * c12_str * bool) n s vs,
+  c12_parse_range false ex n s = Some vs <->
+  exists rest, c12_range_items ex n s = Some (vs, rest) /\ fst (fst (ex rest)) = None /\ snd (ex rest) = true.
+Proof.
+  intros A ex n s vs. unfold c12_parse_range. split.
+  - destruct (c12_range_items ex n s) as [[vs' rest]|]; [|discriminate].
+    destruct (ex rest) as [[[v|] r] [|]] eqn:E; try discriminate. intros H; inversion H; subst.
+    exists rest. rewrite E. auto.
+  - intros (rest & -> & H1 & H2). destruct (ex rest) as [[[v|] r] [|]]; cbn in *; try discriminate. reflexivity.
+Qed.
+
+Lemma c12_all_digits_some : forall ds,
+  forallb (fun c => match c12_digit c with Some _ => true | None => false end) ds = true ->
+  exists vals, c12_all_some c12_digit ds = Some vals.
+Proof.
+  induction ds as [|c ds IH]; intros H; [exists []; reflexivity|].
+  cbn in H. destruct (c12_digit c) as [d|] eqn:Ed; [|discriminate]. destruct (IH H) as [vals Hv].
+  exists (d :: vals). cbn. rewrite Ed, Hv. reflexivity.
+Qed.
+
+Lemma c12_all_some_digits : forall ds vals, c12_all_some c12_digit ds = Some vals ->
+  forallb (fun c => match c12_digit c with Some _ => true | None => false end) ds = true.
+Proof.
+  induction ds as [|c ds IH]; intros vals H; [reflexivity|]. cbn in *.
+  destruct (c12_digit c); [|discriminate]. destruct (c12_all_some c12_digit ds) eqn:E; [|discriminate].
+  apply (IH _ eq_refl).
+Qed.
+
+(* the digits part fails at the end of the text: no digit at all, or digits to the end with an unrepresentable value *)
+Lemma c12_tail_fail_eof : forall lo hi neg s2 rest,
+  c12_extract_tail true lo hi neg s2 = (None, rest, true) ->
+  s2 = [] \/ (s2 <> [] /\ forallb (fun c => match c12_digit c with Some _ => true | None => false end) s2 = true /\
+              c12_spec_int_digits lo hi neg s2 = None).
+Proof.
+  intros lo hi neg s2 rest H. unfold c12_extract_tail in H.
+  destruct (c12_digits s2 0 O) as [[m k] r] eqn:Ed.
+  apply c12_digits_sound in Ed as (ds & vals & -> & Hv & -> & -> & Hn).
+  destruct ds as [|c ds].
+  - cbn in H. inversion H; subst. destruct rest; [left; reflexivity|discriminate].
+  - right. cbn [length Nat.add] in H.
+    destruct ((lo <=? (if neg then - fold_left c12_step vals 0 else fold_left c12_step vals 0)) &&
+              ((if neg then - fold_left c12_step vals 0 else fold_left c12_step vals 0) <=? hi))%Z eqn:Er; [discriminate|].
+    inversion H; subst. destruct rest; [|discriminate]. rewrite app_nil_r. split; [discriminate|]. split.
+    + apply (c12_all_some_digits _ _ Hv).
+    + unfold c12_spec_int_digits. rewrite Hv. change (fun a d : Z => (10 * a + d)%Z) with c12_step. rewrite Er. reflexivity.
+Qed.
+
+(* C12_range_items, full: exactly what the probe as found accepted -- n items followed by a dropped tail *)
+Lemma c12_range_asfound_shape : forall lo hi n s vs,
+  c12_parse_range false (c12_extract_int true lo hi) n s = Some vs ->
+  exists rest, c12_items_then lo hi n s vs rest /\ c12_dropped_tail lo hi rest.
+Proof.
+  intros lo hi n s vs H. apply c12_range_asfound_exact in H as (rest & Hi & Hn & He).
+  exists rest. split; [apply c12_range_items_sound; exact Hi|].
+  unfold c12_extract_int, c12_skip_space in Hn, He.
+  destruct (c12_split_blanks rest) as (b & Hs & Hb). exists b.
+  destruct (c12_dropwhile c12_is_space rest) as [|c r] eqn:Es1.
+  { exists []. split; [exact Hs|]. split; [exact Hb|]. left. reflexivity. }
+  exists (c :: r). split; [exact Hs|]. split; [exact Hb|]. right.
+  destruct (Ascii.eqb_spec c "-") as [->|Hm].
+  { destruct (c12_extract_tail true lo hi true r) as [[[v|] r'] e] eqn:Et; cbn in Hn, He; [discriminate|]. subst e.
+    apply c12_tail_fail_eof in Et as [->|(Hne & Hd & Hs')].
+    - left. exists "-"%char. split; reflexivity.
+    - right. exists ["-"%char], r. split; [reflexivity|]. split; [right; exists "-"%char; split; reflexivity|].
+      split; [exact Hne|]. split; [exact Hd|exact Hs']. }
+  destruct (Ascii.eqb_spec c "+") as [->|Hp].
+  { destruct (c12_extract_tail true lo hi false r) as [[[v|] r'] e] eqn:Et; cbn in Hn, He; [discriminate|]. subst e.
+    apply c12_tail_fail_eof in Et as [->|(Hne & Hd & Hs')].
+    - left. exists "+"%char. split; reflexivity.
+    - right. exists ["+"%char], r. split; [reflexivity|]. split; [right; exists "+"%char; split; reflexivity|].
+      split; [exact Hne|]. split; [exact Hd|exact Hs']. }
+  destruct (c12_extract_tail true lo hi false (c :: r)) as [[[v|] r'] e] eqn:Et; cbn in Hn, He; [discriminate|]. subst e.
+  apply c12_tail_fail_eof in Et as [Hnil|(Hne & Hd & Hs')]; [discriminate|].
+  right. exists [], (c :: r). split; [reflexivity|]. split; [left; reflexivity|]. split; [exact Hne|]. split; [exact Hd|].
+  rewrite c12_token_other by assumption. exact Hs'.
+Qed.
+
+(* ------------------------------------------------------------------ unsigned types *)
+
+Lemma c12_unsigned_tail : forall lo hi neg s2,
+  c12_scalar_of (c12_extract_tail false lo hi neg s2) =
+  (if forallb c12_is_space (c12_dropwhile c12_nonspace s2)
+   then c12_spec_uint_digits hi neg (c12_takewhile c12_nonspace s2) else None).
+Proof.
+  intros lo hi neg s2. unfold c12_extract_tail.
+  pose proof (c12_body_eq s2 0%Z O) as H. unfold c12_model_body, c12_spec_body in H.
+  destruct (c12_digits s2 0 O) as [[m n] rest].
+  unfold c12_spec_uint_digits.
+  destruct (c12_all_some c12_digit (c12_takewhile c12_nonspace s2)) as [vals|] eqn:Ev.
+  - pose proof (c12_all_some_length _ _ _ _ _ Ev) as Hl.
+    destruct (forallb c12_is_space (c12_dropwhile c12_nonspace s2)).
+    + destruct (c12_is_nil (c12_skip_space rest)) eqn:En; [|discriminate].
+      inversion H; subst.
+      destruct (c12_takewhile c12_nonspace s2) as [|t0 tt].
+      * destruct vals; [reflexivity|discriminate].
+      * destruct vals as [|v0 vv]; [discriminate|]. cbn [length Nat.add].
+        change (fun a d : Z => (10 * a + d)%Z) with c12_step.
+        destruct (_ <=? hi)%Z; cbn [c12_scalar_of]; [rewrite En|]; reflexivity.
+    + destruct (c12_is_nil (c12_skip_space rest)) eqn:En; [discriminate|].
+      destruct n; [reflexivity|].
+      destruct (_ <=? hi)%Z; cbn [c12_scalar_of]; [rewrite En|]; reflexivity.
+  - destruct (c12_is_nil (c12_skip_space rest)) eqn:En; [discriminate|].
+    assert (Hr : (if forallb c12_is_space (c12_dropwhile c12_nonspace s2)
+                  then match c12_takewhile c12_nonspace s2 with [] => None | _ :: _ => @None Z end
+                  else None) = None).
+    { destruct (forallb _ _); [destruct (c12_takewhile _ _)|]; reflexivity. }
+    rewrite Hr.
+    destruct n; [reflexivity|].
+    destruct (_ <=? hi)%Z; cbn [c12_scalar_of]; [rewrite En|]; reflexivity.
+Qed.
+
+Lemma c12_utoken_other : forall hi c t, c <> "-" -> c <> "+" ->
+  c12_spec_uint_token hi (c :: t) = c12_spec_uint_digits hi false (c :: t).
+Proof.
+  intros hi c t H1 H2. unfold c12_spec_uint_token.
+  destruct c as [[] [] [] [] [] [] [] []]; try reflexivity; congruence.
+Qed.
+
+(* Parser<unsigned ...>: exactly  blank* [+-]? digit+ blank*  with magnitude <= max; a leading '-' wraps *)
+Lemma c12_uint_exact : forall lo hi s,
+  c12_parse_scalar (c12_extract_int false lo hi) s = c12_spec_uint hi s.
+Proof.
+  intros lo hi s. rewrite c12_parse_scalar_of. unfold c12_extract_int, c12_spec_uint, c12_skip_space.
+  destruct (c12_dropwhile c12_is_space s) as [|c r] eqn:Es1.
+  - reflexivity.
+  - pose proof (c12_dropwhile_head _ _ _ _ Es1) as Hc.
+    cbn [c12_dropwhile c12_takewhile]. unfold c12_nonspace at 1 3. rewrite Hc. cbn [negb].
+    destruct (Ascii.eqb_spec c "-") as [->|Hm].
+    + rewrite c12_unsigned_tail. reflexivity.
+    + destruct (Ascii.eqb_spec c "+") as [->|Hp].
+      * rewrite c12_unsigned_tail. reflexivity.
+      * rewrite c12_utoken_other by assumption.
+        rewrite c12_unsigned_tail.
+        cbn [c12_dropwhile c12_takewhile]. unfold c12_nonspace at 1 3. rewrite Hc. reflexivity.
+Qed.
+
+(* Parser<std::string> is total: every text converts, to itself without surrounding " \t\n\r" *)
+Lemma c12_string_total : forall s, c12_parse_string s = c12_ltrim (c12_rtrim s).
+Proof. reflexivity. Qed.
